@@ -12,6 +12,9 @@
                   finding) other than Title/Author/Subject/Creator/AAPL:Keywords (own Info
                   entries, not "properties"); viewer preference fields hold values of their
                   enumerations.
+   xmp_ok d h     the catalog XMP packet of d contributes no keyword, or h never uses "remove all
+                  properties" (which also drops the packet: pdfcpu documents that it removes "all
+                  properties and catalog XMP metadata")
    Full statement for keywords (false for pdfcpu today, see C35_keyword_separator_refuted): the
    same without wfk. *)
 From Coq Require Import NArith List Bool.
@@ -21,7 +24,7 @@ Open Scope N_scope.
 
 (* For ANY history of edits, of any length, listing afterwards returns exactly the abstract store. *)
 Theorem C35_history_partial : forall h d s, Rel d s ->
-  Forall (fun o => wf_op o = true) h -> fresh_adds h s = true ->
+  Forall (fun o => wf_op o = true) h -> fresh_adds h s = true -> xmp_ok d h ->
   observe (run d h) = Some (arun s h).
 Proof. exact history_refines. Qed.
 Print Assumptions C35_history_partial.
@@ -32,8 +35,17 @@ Theorem C35_history_from_empty_partial : forall h,
 Proof. exact history_from_empty. Qed.
 Print Assumptions C35_history_from_empty_partial.
 
+(* starting from a document whose Info dictionary and catalog XMP packet both carry keywords:
+   the store starts with their union, by-name removals of XMP keywords included *)
+Theorem C35_history_from_xmp_partial : forall kw x h, let d := init_doc 17 true kw x in
+  Forall (fun k => wfk k = true) (kw_read d) ->
+  Forall (fun o => wf_op o = true) h -> fresh_adds h (init_store d) = true -> xmp_ok d h ->
+  observe (run d h) = Some (arun (init_store d) h).
+Proof. exact history_from_xmp. Qed.
+Print Assumptions C35_history_from_xmp_partial.
+
 (* one step keeps the representation invariant *)
-Theorem C35_step_refines_partial : forall d s o, Rel d s -> wf_op o = true -> fresh_op s o ->
+Theorem C35_step_refines_partial : forall d s o, Rel d s -> wf_op o = true -> fresh_op s o -> safe_op d o ->
   Rel (fst (step d o)) (astep s o).
 Proof. exact step_rel. Qed.
 Print Assumptions C35_step_refines_partial.
@@ -42,6 +54,7 @@ Print Assumptions C35_step_refines_partial.
 Theorem C35_extract_returns_added : forall d s id data h,
   Rel d s -> m_mem id (s_att s) = false ->
   Forall (fun o => wf_op o = true) h -> forallb (fun o => negb (att_op o)) h = true ->
+  xmp_ok d (AAdd id data :: h) ->
   extract (run d (AAdd id data :: h)) id = Some data.
 Proof. exact extract_returns_added. Qed.
 Print Assumptions C35_extract_returns_added.
@@ -93,6 +106,32 @@ Theorem C35_keyword_separator_refuted :
 Proof. exact kw_history_refuted. Qed.
 Print Assumptions C35_keyword_separator_refuted.
 
+(* a keyword that only the XMP packet carries stays removed after a by-name removal: the
+   packet is scrubbed (finalizeKeywords) *)
+Theorem C35_xmp_remove_by_name :
+  let d := init_doc 17 true (Some [105; 49]) (Some (Some [120; 49; 59; 32; 120; 50])) in
+  kw_read d = [[105; 49]; [120; 49]; [120; 50]]
+  /\ observe (run d [KRemove [[120; 49]]]) = Some (Store 17 [[105; 49]; [120; 50]] [] None None None [])
+  /\ d_xmp (run d [KRemove [[120; 49]]]) = Some None.
+Proof. exact xmp_remove_by_name. Qed.
+Print Assumptions C35_xmp_remove_by_name.
+
+(* xmp_ok cannot be dropped; and without an Info dictionary a listed keyword cannot be removed *)
+Theorem C35_prall_drops_xmp_keywords_refuted :
+  let d := init_doc 17 true None (Some (Some [120; 49])) in
+  kw_read d = [[120; 49]]
+  /\ observe (run d [PRemove []]) = Some (Store 17 [] [] None None None []).
+Proof. exact prall_drops_xmp_keywords. Qed.
+Print Assumptions C35_prall_drops_xmp_keywords_refuted.
+
+Theorem C35_remove_without_info_refuted :
+  let d := init_doc 17 false None (Some (Some [120; 49])) in
+  kw_read d = [[120; 49]]
+  /\ last_ok d [KRemove [[120; 49]]] = false
+  /\ observe (run d [KRemove [[120; 49]]]) = Some (Store 17 [[120; 49]] [] None None None []).
+Proof. exact no_info_remove_refused. Qed.
+Print Assumptions C35_remove_without_info_refuted.
+
 (* the three repaired defects stay repaired in the model: '#' in a name, "remove all" with a
    name that needs an escape, NFSPageModeUseOC *)
 Theorem C35_repaired_regressions :
@@ -132,12 +171,17 @@ Example C35_nonvacuous :
      = Some (Store 17 [[105; 110; 32; 110; 101; 114]] [] (Some 3) (Some 4)
                    (Some [Some 1;None;None;None;None;None;Some 4;Some 1;None;None;None;None;None;None;None;Some 2])
                    [([97; 46; 116], [0; 255; 10])])
-  /\ Forall (fun o => wf_op o = true) (nv_hist ++ [PRemove []]).
+  /\ Forall (fun o => wf_op o = true) (nv_hist ++ [PRemove []])
+  /\ (let d := init_doc 17 true (Some [105; 49; 44; 32; 120; 50]) (Some (Some [120; 49; 59; 32; 120; 50])) in
+      Forall (fun k => wfk k = true) (kw_read d) /\ xmp_ok d (KRemove [[120; 49]] :: nv_hist)
+      /\ s_kw (arun (init_store d) (KRemove [[120; 49]] :: nv_hist)) = [[105; 49]; [105; 110; 32; 110; 101; 114]; [120; 50]]).
 Proof.
   split; [apply rel_empty|].
   split; [repeat constructor|].
   split; [vm_compute; reflexivity|].
   split; [vm_compute; reflexivity|].
   split; [vm_compute; reflexivity|].
-  split; [vm_compute; reflexivity|repeat constructor].
+  split; [vm_compute; reflexivity|].
+  split; [repeat constructor|].
+  split; [vm_compute; repeat constructor|]. split; [right; vm_compute; reflexivity|vm_compute; reflexivity].
 Qed.
